@@ -18,7 +18,8 @@ ASSUMPTIONS = ["stratified states are non-negative (clean(-1)+clean(2) != clean(
 
 def payloads(tier, seed):
     n = 60 if tier == "quick" else 1200
-    return [{"seed": seed, "index": i, "variant": ["plain", "plain", "age", "strain", "proportionate"][i % 5]} for i in range(n)]
+    return [{"seed": seed, "index": i, "variant": ["plain", "plain", "age", "strain", "proportionate"][i % 5]} for i in range(n)] \
+        + [{"seed": seed, "index": i, "variant": "shared_object"} for i in range(n // 6)]
 
 def build(ops):
     from interp import Interp
@@ -35,8 +36,60 @@ def agg_index(comps_new, comps_old, strat_name):
     old = {(c.name, tuple(c.strata.items())): i for i, c in enumerate(comps_old)}
     return [old[key(c)] for c in comps_new]
 
+def shared_object_task(W, payload):
+    """the unadjusted stratification is ONE Stratification object applied to two models with different layouts (scenario models built from
+    common building blocks), both built before either is run: the first model's aggregate trajectory must still be that of its unstratified
+    version (same definition without the shared stratification)"""
+    import interp as interp_mod
+    r = random.Random(f"C03s:{payload['seed']}:{payload['index']}")
+    prog = Gen(r, Opts(max_strats=1, max_flows=4, allow_requests=False, allow_computed=False, allow_post_flows=False, allow_adjust=False, allow_mixing=False,
+                       allow_inf_adjust=False, allow_rebalance=False, allow_age=False, allow_strain=False, allow_state=False, small_dt=True, max_steps=5,
+                       kinds=["transition", "death", "transition"])).program()
+    out = mk_out(prog)
+    bump(out, "variant:shared_object")
+    base = prog["build"]
+    names = base[0]["comps"]
+    comps = [r.choice(names)]
+    key = f"c03shared:{payload['seed']}:{payload['index']}"
+    shared = {"op": "stratify", "kind": "plain", "name": "shr", "strata": ["u", "v"], "comps": comps, "split": [["u", {"c": "1/4"}], ["v", {"c": "3/4"}]], "share": key}
+    other = {"op": "stratify", "kind": "plain", "name": "xtra", "strata": ["k1", "k2", "k3"], "comps": [n for n in names if n not in comps][:1] or comps}
+    opsA = base + [shared]
+    opsB = base + [other, shared]
+    interp_mod.SHARED_STRATS.pop(key, None)
+    try:
+        IA = interp_mod.Interp(); IB = interp_mod.Interp(); I0 = interp_mod.Interp()
+        for I_, ops_ in ((IA, opsA), (IB, opsB), (I0, base)):
+            for op in ops_:
+                if not I_.apply(op)["ok"]:
+                    bump(out, "build_rejected"); return out
+        params = [[k, v] for k, v in prog["params"].items()]
+        ra = IA.apply({"op": "run", "params": params, "solver": "euler"}); r0 = I0.apply({"op": "run", "params": params, "solver": "euler"})
+        out["evals"] += 2
+        if not (ra["ok"] and r0["ok"]):
+            bump(out, "run_failed"); return out
+        a = np.array(ra["outputs"]); o = np.array(r0["outputs"])
+        if not (np.all(np.isfinite(a)) and np.all(np.isfinite(o))):
+            bump(out, "diverged"); return out
+        ca = [(c.name, dict(c.strata)) for c in IA.model.compartments]; c0 = [c.name for c in I0.model.compartments]
+        agg = np.zeros_like(o)
+        for j, (nm, st) in enumerate(ca):
+            st2 = {k: v for k, v in st.items() if k != "shr"}
+            tgt = [i for i, c in enumerate(I0.model.compartments) if c.name == nm and dict(c.strata) == st2]
+            agg[:, tgt[0]] += a[:, j]
+        out["cases"].append(prog_hash(opsA) + ":shared_object")
+        tol = 1e-9 * max(1.0, float(np.abs(o).max()))
+        if np.abs(agg - o).max() > tol:
+            fail(out, "aggregate trajectory changes when the unadjusted stratification is an object shared with another model built before the run", "c03", payload,
+                 worst=float(np.abs(agg - o).max()), tol=tol, program_A=opsA, program_B=opsB, params=prog["params"])
+    finally:
+        interp_mod.SHARED_STRATS.pop(key, None)
+    return out
+
+
 def task(W, payload):
     variant = payload["variant"]
+    if variant == "shared_object":
+        return shared_object_task(W, payload)
     r = random.Random(f"C03:{payload['seed']}:{payload['index']}")
     has_age_ok = variant == "age"
     opts = Opts(max_strats=2, max_flows=6, n_requests=0, allow_requests=False, allow_computed=False, allow_age=not has_age_ok,
